@@ -243,6 +243,10 @@ def run(ctx):
     # (unknown values only are replaced by the documented defaults)
     from ._chains import apply_chains
     apply_chains(ctx, "C10.f")
+    # the state requested on the command line is the state apply() encodes: nothing refreshes the device object between the assignments
+    # and apply (C20.e; the CLI is one of the public ways to request a state)
+    from . import c20
+    ctx.import_rules(c20, "t20", only=("C20.e",))
     ctx.require_min("body_bytes", 24)
     ctx.require_min("regions", 4)
     ctx.require_min("fields", 16)
